@@ -118,6 +118,9 @@ pub fn seq_cfg(focus: &'static str, seed: u64, index: u64, clean_only: bool) -> 
         }
     }
     // (a sketch with a single counter per row is legal: its rows used to be empty, repaired by e1fc0f4)
+    // C01: removing the time-to-live of a key charged 24 or less (the documented assertion fires in the caller today; if it ever does not, the
+    // total must not go negative) is drawn in a third of all histories
+    if focus == "C01" && !clean_only && rng.chance(1, 3) { allow.remove_ttl_small_weight = true; }
     let counters_choices: &[u64] = if allow.counters_one { &[1, 2, 3, 7, 10, 100, 1 << 20] } else { &[1, 2, 3, 7, 10, 100, 1000] };
     let sut = SutCfg {
         counters: *rng.pick(counters_choices),
